@@ -160,13 +160,18 @@ pub fn scenarios(tier: Tier) -> Vec<Scenario> {
         Tier::Thorough => {
             for pol in Pol::ALL {
                 for cap in 1..=2usize {
-                    for &(np, k) in &[(1u32, 2u32), (1, 3), (2, 1), (2, 2)] {
+                    for &(np, k) in &[(1u32, 1u32), (1, 2), (1, 3), (2, 1), (2, 2)] {
                         for gated in [false, true] {
                             for end in 0..=2u8 {
-                                if gated && end >= 1 {
+                                if (gated && end >= 1) || (np == 2 && k == 2 && (end != 0 || cap == 2)) {
                                     continue;
                                 }
-                                let bound = if (np == 2 && k == 2) || k == 3 { 2 } else { 3 };
+                                let bound = match (np, k) {
+                                    (1, 1) => 4,
+                                    (1, 2) => 3,
+                                    (1, 3) => 2,
+                                    _ => 1,
+                                };
                                 add(cap, pol, np, k, gated, end, bound);
                             }
                         }
